@@ -15,7 +15,7 @@ Obligations that can be reported (witness keys in brackets)
   rt/StudyTiling.count_populated_positions/count         [kind=geom, width, height, sub]
   rt/StudyTiling.image_to_tile/slot                      [kind=geom, width, height, sub]
   rt/StudyTiling.tile_image/read-back                    [kind=tile, width, height, sub, mode,
-      format, content, source, seed; + tile=[n,x,y] of the first bad tile]
+      format, content, source, seed, inf (only when set); + tile=[n,x,y] of the first bad tile]
       deepest-level tile files (located through the WTML Url template, decoded with
       numpy/PIL/astropy directly), put in display orientation (fits rows reversed), equal
       the image inside and are undefined (alpha 0 / NaN / 0) outside; a missing file counts
@@ -27,7 +27,9 @@ Bounds
   quick   : geometry for every (a, b) and (b, a) with a in 1..1100 and b in a fixed set of
             12 corner values, 300 random sub-images; file read-back for
             {1,2,255,256,257,511,512,513}^2 x 15 (mode, lossless format) pairs, 150
-            sub-image read-backs, 6 random sizes <= 1400.
+            sub-image read-backs, 6 random sizes <= 1400; float images with +-inf pixels
+            (inf = 'all' | 'some' | 'channel', see rt/c15_modes.random_array): 6 sizes x 3 x 3
+            contents + 8 random sizes / sub-images per (float mode, format) pair.
   thorough: geometry exhaustive for all (w, h) in 1..600 x 1..600, each axis 1..2100 against
             14 sampled values of the other, 3000 random sizes (one axis <= 100000, other <= 2000), 30 random sizes <= 30000^2, 6000 random
             sub-images; read-back for every n in 1..600 as width and as height against a
@@ -176,7 +178,7 @@ def check_tile(spec, workdir):
     mode, fmt = spec["mode"], spec["format"]
     p2n, levels, gx0, gy0, W, H = expected_geometry(width, height, sub)
     nprng = np.random.default_rng(spec["seed"])
-    arr = M.random_array(mode, H, W, nprng, kind=spec.get("content", "mixed"), dirty=bool(spec.get("dirty")))
+    arr = M.random_array(mode, H, W, nprng, kind=spec.get("content", "mixed"), dirty=bool(spec.get("dirty")), inf=spec.get("inf"))
     base = tempfile.mkdtemp(prefix="c08_", dir=workdir)
     try:
         try:
@@ -302,7 +304,8 @@ def _key(s):
     sub = tuple(s["sub"]) if s.get("sub") else None
     if s["kind"] == "geom":
         return ("geom", s["width"], s["height"], sub)
-    return ("tile", s["width"], s["height"], sub, s["mode"], s["format"], s.get("content", "mixed"), s.get("source", "array"), s["seed"])
+    return ("tile", s["width"], s["height"], sub, s["mode"], s["format"], s.get("content", "mixed"), s.get("source", "array"), s["seed"],
+            s.get("inf"))
 
 
 def rand_sub(rng, w, h):
@@ -320,13 +323,15 @@ def run(ctx):
     geom_specs = []   # compact
     tile_specs = []
 
-    def tile(w, h, sub, mode, fmt, content=None, source=None):
+    def tile(w, h, sub, mode, fmt, content=None, source=None, inf=None):
         s = {"kind": "tile", "width": w, "height": h, "sub": sub, "mode": mode, "format": fmt,
              "content": content or rng.choice(["mixed", "mixed", "full", "blocks", "sparse"]),
              "source": source or ("pil" if mode in M.COLOUR_MODES and rng.random() < 0.3 else "array"),
              "seed": rng.randrange(2 ** 31)}
         if mode == "RGBA" and rng.random() < 0.3:
             s["dirty"] = True
+        if inf:
+            s["inf"] = inf
         tile_specs.append(s)
 
     others = [1, 2, 255, 256, 257, 511, 512, 513, 1024, 1025, 2048, 2049]
@@ -377,6 +382,27 @@ def run(ctx):
     for mode, fmt in COMBOS:
         tile(257, 300, None, mode, fmt, content="allundef")
         tile(300, 257, None, mode, fmt, content="single")
+    # floating-point images holding infinities: +inf / -inf are pixel values like any other (the statement calls only
+    # NaN / transparent "undefined"), so they must come back exactly -- whole images and whole tiles of infinity, a
+    # single infinite pixel in an otherwise undefined image, infinities among finite values, one channel only
+    fcombos = [(m, f) for (m, f) in COMBOS if m in M.FLOAT_MODES]
+    inf_sizes = [(1, 1), (5, 3), (256, 256), (257, 300), (512, 512), (513, 257)]
+    n_inf = 0
+    for mode, fmt in fcombos:
+        for (w, h) in inf_sizes:
+            for inf in M.INF_KINDS:
+                for content in ("full", "mixed", "single"):
+                    tile(w, h, None, mode, fmt, content=content, inf=inf)
+                    n_inf += 1
+        for _ in range(40 if ctx.thorough else 8):
+            w = rng.choice(CORNERS + [rng.randint(1, 1100)])
+            h = rng.choice(CORNERS + [rng.randint(1, 1100)])
+            tile(w, h, rand_sub(rng, w, h) if rng.random() < 0.6 else None, mode, fmt,
+                 content=rng.choice(["full", "mixed", "blocks", "sparse", "single"]), inf=rng.choice(M.INF_KINDS))
+            n_inf += 1
+    ctx.bound("read-back of floating-point images with infinities (defined values): %d cases = %r x sizes %r x {every defined pixel "
+              "+-inf, a fifth of them, one channel of every pixel (F16x3)} x {no undefined pixel, random NaN mask, a single defined "
+              "pixel} + random sizes <= 1100 and sub-images" % (n_inf, fcombos, inf_sizes))
     ctx.bound("read-back: {1,2,255,256,257,511,512,513}^2 x %d (mode, lossless format) pairs%s; %d sub-image tilings; %d random sizes <= %d; "
               "all-undefined and single-pixel images per pair" % (
                   len(COMBOS), "; every n in 1..600 as width and as height x every pair" if ctx.thorough else "", nsub_t, nrand_t, rand_max))
